@@ -96,43 +96,53 @@ CHECKS = [
              "listeners SO_REUSEPORT makes that false on Linux - recorded as known finding (tag tcp-reuseport-share), shown on real sockets each run.",
      "technique": "Coq proof (uint16 arithmetic, induction over the retry loop and over histories) + differential correspondence against the real generators"},
     {"property_id": "C01",
-     "text": "Coq theorems on Model/Relay.v: send/ChannelData gates (state unchanged; nothing or exactly one datagram from the sender's own relay to the named peer with the same bytes, only with a permission/binding present), no other event emits toward a peer, inductive invariant over all histories and policies that no vetoed or wrong-family peer is ever installed, and that what is installed is unexpired; chk_C01 evaluated on the traces of the real server.",
+     "text": "Coq theorems on Model/Relay.v: send/ChannelData gates (state unchanged; nothing or exactly one datagram from the sender's own relay to the named peer with the same bytes, only with a permission/binding present), no other event emits toward a peer, inductive invariant over all histories and policies that no vetoed or wrong-family peer is ever installed, and that what is installed is unexpired; chk_C01 evaluated on the traces of the real server."
+             + " History level: chk_C01 (gate and 'present = unexpired by the reported lifetimes', i.e. with chk_C06 and chk_C07) is proved to hold on every trace of the model for all configurations and histories.",
      "note": RELAY_NOTE,
      "technique": "Coq proof (inductive invariants / step characterisation over all histories) + differential correspondence of Model/Relay.v against the real turn.Server under virtual time, property predicate evaluated on the observed traces"},
     {"property_id": "C02",
-     "text": 'Coq theorems: a datagram at a relayed address changes no state and yields nothing, or exactly one frame to the owner only, via the binding of the exact source else the permission of its IP; only such datagrams ever deliver data; chk_C02 on real traces.',
+     "text": 'Coq theorems: a datagram at a relayed address changes no state and yields nothing, or exactly one frame to the owner only, via the binding of the exact source else the permission of its IP; only such datagrams ever deliver data; chk_C02 on real traces.'
+             + ' History level: chk_C02 (gate with chk_C06 and chk_C07) is proved to hold on every trace of the model.',
      "note": RELAY_NOTE,
      "technique": "Coq proof (inductive invariants / step characterisation over all histories) + differential correspondence of Model/Relay.v against the real turn.Server under virtual time, property predicate evaluated on the observed traces"},
     {"property_id": "C03",
-     "text": "Coq theorems: a non-authenticating request is a no-op answered by exactly one error (401/438 challenges), what acceptance implies (handler's key for username/realm, intact integrity, own nonce aged <= 60 minute ticks), non-owner no-op, nonce window lemmas; chk_C03 (credential descriptor vs. observed effect) on real traces with every kind of credential defect.",
+     "text": "Coq theorems: a non-authenticating request is a no-op answered by exactly one error (401/438 challenges), what acceptance implies (handler's key for username/realm, intact integrity, own nonce aged <= 60 minute ticks), non-owner no-op, nonce window lemmas; chk_C03 (credential descriptor vs. observed effect) on real traces with every kind of credential defect."
+             + " History level: chk_C03 is proved to hold on every trace of the model (owners as told by the lifecycle callbacks = the allocations' users across every step; every error answer leaves the state untouched).",
      "note": RELAY_NOTE,
      "technique": "Coq proof (inductive invariants / step characterisation over all histories) + differential correspondence of Model/Relay.v against the real turn.Server under virtual time, property predicate evaluated on the observed traces"},
     {"property_id": "C04",
-     "text": "Coq theorems: at most one allocation per 5-tuple in every reachable state; a request leaves every other 5-tuple's allocation the same record and answers only its source; data/peer events change nothing and use only the sender's / owner's allocation; chk_C04 on real traces.",
+     "text": "Coq theorems: at most one allocation per 5-tuple in every reachable state; a request leaves every other 5-tuple's allocation the same record and answers only its source; data/peer events change nothing and use only the sender's / owner's allocation; chk_C04 on real traces."
+             + ' History level: chk_C04 is proved to hold on every trace of the model.',
      "note": RELAY_NOTE,
      "technique": "Coq proof (inductive invariants / step characterisation over all histories) + differential correspondence of Model/Relay.v against the real turn.Server under virtual time, property predicate evaluated on the observed traces"},
     {"property_id": "C05",
-     "text": 'Coq theorems: exactly-once and byte-identical forwarding in both directions and both encapsulations, oversize peer datagrams yield nothing, encapsulations lossless at byte level (C11 codecs); chk_C05 on real traces incl. payloads around 4-byte and 1600-byte boundaries.',
+     "text": 'Coq theorems: exactly-once and byte-identical forwarding in both directions and both encapsulations, oversize peer datagrams yield nothing, encapsulations lossless at byte level (C11 codecs); chk_C05 on real traces incl. payloads around 4-byte and 1600-byte boundaries.'
+             + " History level: chk_C05, including 'relaying authorised by what exists before the event => forwarded exactly once', is proved to hold on every trace of the model; the campaign also runs over a stream listener with requests arriving in segments.",
      "note": RELAY_NOTE,
      "technique": "Coq proof (inductive invariants / step characterisation over all histories) + differential correspondence of Model/Relay.v against the real turn.Server under virtual time, property predicate evaluated on the observed traces"},
     {"property_id": "C06",
-     "text": 'Coq theorems: grant rule for all requested values, Allocate/Refresh arm exactly what they report, Refresh 0 deletes, expiry exact (tick keeps iff t < deadline), gone means gone, new allocation starts empty, unexpired invariant; chk_C06 recomputes expiry from the reported LIFETIMEs alone and compares with what exists at instants around every deadline on the real server (virtual time).',
+     "text": 'Coq theorems: grant rule for all requested values, Allocate/Refresh arm exactly what they report, Refresh 0 deletes, expiry exact (tick keeps iff t < deadline), gone means gone, new allocation starts empty, unexpired invariant; chk_C06 recomputes expiry from the reported LIFETIMEs alone and compares with what exists at instants around every deadline on the real server (virtual time).'
+             + " History level (refinement): chk_C06 is proved to hold on every trace of the model - the expiry table reconstructed from the success responses is after every step a permutation of the allocations' deadlines.",
      "note": RELAY_NOTE,
      "technique": "Coq proof (inductive invariants / step characterisation over all histories) + differential correspondence of Model/Relay.v against the real turn.Server under virtual time, property predicate evaluated on the observed traces"},
     {"property_id": "C07",
-     "text": 'Coq theorems: successful CreatePermission/ChannelBind restart the full timeout (permission timeout also on ChannelBind), failed requests change nothing, expiry exact, rebind after expiry; chk_C07 recomputes permission/channel expiry from successes alone.',
+     "text": 'Coq theorems: successful CreatePermission/ChannelBind restart the full timeout (permission timeout also on ChannelBind), failed requests change nothing, expiry exact, rebind after expiry; chk_C07 recomputes permission/channel expiry from successes alone.'
+             + " History level (refinement): chk_C07 is proved to hold on every trace of the model - the reconstructed permission and channel tables agree key by key with the model's deadlines across every step.",
      "note": RELAY_NOTE,
      "technique": "Coq proof (inductive invariants / step characterisation over all histories) + differential correspondence of Model/Relay.v against the real turn.Server under virtual time, property predicate evaluated on the observed traces"},
     {"property_id": "C08",
-     "text": 'Coq theorems: bijection and range as an invariant of every reachable state, emitted numbers in range, conflicts rejected with no change, same binding refreshes, out-of-range rejected for all numbers; chk_C08 on real traces.',
+     "text": 'Coq theorems: bijection and range as an invariant of every reachable state, emitted numbers in range, conflicts rejected with no change, same binding refreshes, out-of-range rejected for all numbers; chk_C08 on real traces.'
+             + ' History level: chk_C08 is proved to hold on every trace of the model.',
      "note": RELAY_NOTE,
      "technique": "Coq proof (inductive invariants / step characterisation over all histories) + differential correspondence of Model/Relay.v against the real turn.Server under virtual time, property predicate evaluated on the observed traces"},
     {"property_id": "C15",
-     "text": 'Coq theorems: every step changes allocations/permissions/channels by exactly the net Created-Deleted callbacks, hence over every history callbacks balance against what exists and pair up when all has ended; chk_C15 on real traces incl. relay errors, Refresh 0, expiry. Sockets, timers and goroutines are observed by the harness only (partial).',
+     "text": 'Coq theorems: every step changes allocations/permissions/channels by exactly the net Created-Deleted callbacks, hence over every history callbacks balance against what exists and pair up when all has ended; chk_C15 on real traces incl. relay errors, Refresh 0, expiry. Sockets, timers and goroutines are observed by the harness only (partial).'
+             + ' History level: chk_C15 is proved to hold on every trace of the model.',
      "note": RELAY_NOTE,
      "technique": "Coq proof (inductive invariants / step characterisation over all histories) + differential correspondence of Model/Relay.v against the real turn.Server under virtual time, property predicate evaluated on the observed traces"},
     {"property_id": "C19",
-     "text": "Coq theorems: every response goes to the request's source with its transaction id and method, Binding/Allocate report truthful addresses and the armed lifetime, retransmission returns the cached success and a different id 437 with no change, 420 path; chk_C19 on real traces.",
+     "text": "Coq theorems: every response goes to the request's source with its transaction id and method, Binding/Allocate report truthful addresses and the armed lifetime, retransmission returns the cached success and a different id 437 with no change, 420 path; chk_C19 on real traces."
+             + " History level: chk_C19 (incl. relayed-address uniqueness and 'a retransmission gets exactly the original success') is proved to hold on every model trace in which the generator never hands out a port in use; EVEN-PORT / RESERVATION-TOKEN / reservations are modelled.",
      "note": RELAY_NOTE,
      "technique": "Coq proof (inductive invariants / step characterisation over all histories) + differential correspondence of Model/Relay.v against the real turn.Server under virtual time, property predicate evaluated on the observed traces"},
     {"property_id": "C10",
